@@ -21,6 +21,7 @@ package nodesim
 import (
 	"encoding/json"
 	"fmt"
+	"math"
 	"os"
 	"path/filepath"
 	"sort"
@@ -91,6 +92,9 @@ type Node struct {
 	Key   crypto.PrivateKeyI
 	root  *Node
 	dir   string
+	// ApproveList: the node votes on governance proposals by its proposals.json approve list (APPROVE_LIST mode, what a
+	// validator does during the first rounds of a height) instead of rejecting all (the mode of a node whose BFT never started)
+	ApproveList bool
 	// TxSink: certificate-results transactions this node submitted to its root chain (bytes as they entered the root mempool)
 	Submitted [][]byte
 }
@@ -161,6 +165,9 @@ func (n *Node) open() error {
 		n.RC.CacheDex, n.RC.DropTx, n.RC.Calls = prev.CacheDex, prev.DropTx, prev.Calls
 	}
 	c.RCManager = n.RC
+	if n.ApproveList {
+		c.Consensus.VerifSetProposalVoteDeadline(math.MaxInt64 / 2)
+	}
 	n.RefreshConsensus()
 	// Controller.Start() runs one mempool check once the root chain info is available; it also installs Mempool.stop
 	reset := c.SetFSMInConsensusModeForProposals()
@@ -234,6 +241,30 @@ func (n *Node) RootNode() *Node {
 func (n *Node) AddTx(tx []byte) lib.ErrorI {
 	n.Sim.Activate(n)
 	return n.C.Mempool.HandleTransactions(tx)
+}
+
+// SetApproveList switches the node's governance voting mode (kept across restarts).
+func (n *Node) SetApproveList(on bool) {
+	n.ApproveList = on
+	d := int64(0)
+	if on {
+		d = math.MaxInt64 / 2
+	}
+	n.C.Consensus.VerifSetProposalVoteDeadline(d)
+}
+
+// ApproveProposal adds a governance proposal transaction to the node's proposals.json approve list (keyed by the hex
+// transaction hash, like the `proposals` admin command does)
+func (n *Node) ApproveProposal(tx []byte, approve bool) error {
+	p := fsm.GovProposals{}
+	if err := p.NewFromFile(n.Cfg.DataDirPath); err != nil {
+		return err
+	}
+	p[crypto.HashString(tx)] = fsm.GovProposalWithVote{Proposal: json.RawMessage(`{}`), Approve: approve}
+	if err := p.SaveToFile(n.Cfg.DataDirPath); err != nil {
+		return err
+	}
+	return nil
 }
 
 // Proposal is what a leader hands to the replicas.
